@@ -356,6 +356,102 @@ def evict_native(P, ks, a):
 
 
 # ---------------------------------------------------------------------------
+# C05: operands of the module-level set functions may be ghosts (rows of an index that were never touched)
+
+OPERAND_KINDS = ['Set', 'Bucket', 'TreeSet', 'BTree']
+OPERAND_OPS = ['multiunion', 'union', 'intersection', 'difference', 'weightedUnion', 'weightedIntersection', 'isdisjoint',
+               'update', 'or', 'and', 'sub', 'ior', 'multiunion3']
+
+
+def _mk_operand(cl, kind, keys):
+    if kind in ('Set', 'TreeSet'):
+        return cl[kind](keys)
+    return cl[kind]([(k, k + 1) for k in keys])
+
+
+def _norm(r):
+    """comparable form of a result (containers by kind and contents)"""
+    if isinstance(r, tuple):
+        return tuple(_norm(x) for x in r)
+    if hasattr(r, 'keys') and hasattr(r, 'minKey'):
+        return (type(r).__name__, list(r.items()) if hasattr(r, 'items') else list(r.keys()))
+    return r
+
+
+def evict_operands(P, ks, a):
+    ka = common.choose(a['ka'], len(OPERAND_KINDS))
+    kb = common.choose(a['kb'], len(OPERAND_KINDS))
+    ga, gb = common.flag(a['ga']), common.flag(a['gb'])
+    with common.untraced():
+        fam, op = P['family'], P['op']
+        if (fam, P.get('impl', 'c'), 'ops') not in _NCL:
+            cl_ = shapes.classes(fam, P.get('impl', 'c'))
+            shapes.set_sizes(cl_, 2, 2)
+            _NCL[(fam, P.get('impl', 'c'), 'ops')] = cl_
+        cl = _NCL[(fam, P.get('impl', 'c'), 'ops')]
+        mod = cl['module']
+        KA, KB = [1, 3, 5, 7, 9], [3, 4, 9, 12]
+        ctx = {'harness': 'evict_operands', 'family': fam, 'op': op, 'A': OPERAND_KINDS[ka], 'B': OPERAND_KINDS[kb], 'ghostA': ga, 'ghostB': gb}
+
+        def run(ghosts):
+            A, B = _mk_operand(cl, OPERAND_KINDS[ka], KA), _mk_operand(cl, OPERAND_KINDS[kb], KB)
+            C = _mk_operand(cl, 'Set', [2, 20])
+            st = Storage()
+            W = Jar(st)
+            for o in (A, B, C):
+                W.add(o)
+                if hasattr(o, '_firstbucket'):
+                    add_all(W, o)
+            W.commit()
+            if ghosts:
+                # evict exactly the chosen operands (all of their nodes)
+                W.minimize()
+                for o, g in ((A, ga), (B, gb), (C, False)):
+                    if not g:
+                        o._p_activate()
+                        list(o.keys())
+            sfx = 'Py' if P.get('impl') == 'py' else ''
+            try:
+                if op == 'multiunion':
+                    r = getattr(mod, 'multiunion' + sfx)([A, B])
+                elif op == 'multiunion3':
+                    r = getattr(mod, 'multiunion' + sfx)([B, 7, A, C])
+                elif op in ('union', 'intersection', 'difference'):
+                    r = getattr(mod, op + sfx)(A, B)
+                elif op in ('weightedUnion', 'weightedIntersection'):
+                    r = getattr(mod, op + sfx)(A, B, 2, 3)
+                elif op == 'isdisjoint':
+                    # unbound calls first: looking a method up on the instance already activates it
+                    r = (type(A).isdisjoint(A, A) if hasattr(type(A), 'isdisjoint') else None,
+                         type(B).isdisjoint(B, C) if hasattr(type(B), 'isdisjoint') else None,
+                         A.isdisjoint(B) if hasattr(type(A), 'isdisjoint') else None)
+                elif op == 'update':
+                    A.update(B)
+                    r = A
+                elif op == 'or':
+                    r = A | B
+                elif op == 'and':
+                    r = A & B
+                elif op == 'sub':
+                    r = A - B
+                else:
+                    if hasattr(A, '__ior__') and OPERAND_KINDS[ka] in ('Set', 'TreeSet'):
+                        A |= B
+                    r = A
+                out = _norm(r)
+            except Exception as e:      # noqa
+                out = 'raised ' + type(e).__name__
+            pinned = [type(o).__name__ for o in W.nodes() if o._p_state == STICKY]
+            return out, pinned
+        want, _ = run(False)
+        got, pinned = run(True)
+        if got != want:
+            fail('the result differs when operands are ghosts at the call', ctx, got, want)
+        if pinned:
+            fail('a node is left pinned after the call', dict(ctx, pinned=pinned[0]))
+
+
+# ---------------------------------------------------------------------------
 # C08: two concurrent transactions on one committed tree
 
 _DEL = object()
